@@ -161,7 +161,7 @@ def viewKey (view : Bytes) (atLast : Bool) : Bytes :=
 /-- `key.indices()`: the first two `:`-separated parts -/
 def keyIndices (key : Bytes) : Bytes × Option Bytes :=
   let (a, r) := splitAtByte 58 key
-  if key.contains 58 then (a, some (splitAtByte 58 r).1) else (a, none)
+  if key.any (fun c => c == 58) then (a, some (splitAtByte 58 r).1) else (a, none)
 
 /-- one entry of `MapContext`: table key, key context value, value context value -/
 structure Entry where
@@ -224,14 +224,16 @@ def insertKV (acc : List (Bytes × Bytes)) (k v : Bytes) : List (Bytes × Bytes)
   if acc.any (fun p => p.1 == k) then acc.map (fun p => if p.1 == k then (k, v) else p)
   else acc ++ [(k, v)]
 
+def finalizeStep (acc : List (Bytes × Bytes)) (e : Entry) : List (Bytes × Bytes) :=
+  match e.k, e.v with
+  | some k, some v => insertKV acc k v
+  | _, _ => acc
+
 /-- `MapContext::finalize` (lenient): every entry needs a key and a value; collect into a map -/
 def mapFinalize (m : MapCtx) : Option (List (Bytes × Bytes)) :=
   if m.failed then none
   else if m.entries.any (fun e => e.k.isNone || e.v.isNone) then none
-  else some (m.entries.foldl (fun acc e =>
-    match e.k, e.v with
-    | some k, some v => insertKV acc k v
-    | _, _ => acc) [])
+  else some (m.entries.foldl finalizeStep [])
 
 /-- `Form<HashMap<String,String>>` from the decoded fields; `none` = form error (422) -/
 def rocketMap (fields : List (Bytes × Bytes)) : Option (List (Bytes × Bytes)) :=
